@@ -87,3 +87,16 @@ Definition chk_twin (c : (str * str) * (bool * core)) : bool :=
   let '((dir, line), (wf, tw)) := c in
   Bool.eqb (wf_gmline line) wf &&
   (if wf then core_eqb (core_of (spec_entry dir line)) tw else true).
+
+(* one world per shard: shared data is defined once in the shard's preamble;
+   a case names the model variant (true = repaired), the gophermap and what was observed *)
+Definition observation := ((list core + N) + str)%type.
+Definition obs_entries (l : list core) : observation := inl (inl l).
+Definition obs_raise (n : N) : observation := inl (inr n).
+Definition obs_menu (s : str) : observation := inr s.
+Definition chk_world (c : bool * (((str * bool) * (str * list str)) * observation)) : bool :=
+  let '(fixed, (((sel, is_file), (content, existing)), obs)) := c in
+  match obs with
+  | inl impl => chk_entries fixed ((sel, is_file), (content, (existing, impl)))
+  | inr response => chk_menu fixed ((sel, is_file), (content, (existing, response)))
+  end.
